@@ -404,7 +404,8 @@ func (in *Interp) strIndexOf(s, sub Value) Value {
 	bs, ok1 := strBytes(s)
 	bsub, ok2 := strBytes(sub)
 	if !ok1 || !ok2 {
-		panic(unsupported("strings.Index on an opaque string"))
+		// opaque operands: seq.indexof
+		return SymInt{in.ctx.SeqIndex64(in.seqTerm(s), in.seqTerm(sub))}
 	}
 	for i := 0; i+len(bsub) <= len(bs); i++ {
 		if in.decide(in.matchAt(bs, i, bsub)) {
